@@ -43,4 +43,26 @@ theorem C15_core_ok_is_ready (σ : St) (t ph cnt : Nat) (ho : (σ.th t).outer = 
       cases hw : σ.wait <;> simp_all [WaitK.needsNotify]
   · left; simp [St.goto, St.setTh, upd]
 
+/-- Core (`NotReady` parks the task): when the last attempt of `start_send` — the one made while holding the
+senders' list lock — ends `Full`, the task is put on the senders' list in the same step and `NotReady` is returned;
+a task is never told `NotReady` without being registered for a wake-up. -/
+theorem C15_core_notready_registers (σ : St) (t cnt a b : Nat) (ho : (σ.th t).outer = .startSend 2 cnt)
+    (hw : σ.wait = .fut a b) :
+    (sendDone σ t .full).pwaitL = σ.pwaitL ++ [t] ∧ ((sendDone σ t .full).th t).pc = .ret .notready := by
+  unfold sendDone
+  simp [ho, hw, St.goto, St.setTh, upd]
+
+/-- Core: the earlier attempts (spinning, yielding) that end `Full` only lead to the next attempt — they neither
+return nor park -/
+theorem C15_core_full_retries_first (σ : St) (t cnt a b : Nat) (ho : (σ.th t).outer = .startSend 0 cnt)
+    (hw : σ.wait = .fut a b) :
+    ((sendDone σ t .full).th t).pc = .s0 ∨ ((sendDone σ t .full).th t).pc = .sy ∨ ((sendDone σ t .full).th t).pc = .spl := by
+  unfold sendDone
+  simp only [ho, hw, if_true]
+  by_cases h1 : cnt + 1 < a
+  · left; simp [h1, St.goto, St.setTh, upd]
+  · by_cases h2 : 0 < b
+    · right; left; simp [h1, h2, St.goto, St.setTh, upd]
+    · right; right; simp [h1, h2, St.goto, St.setTh, upd]
+
 end MQ
